@@ -97,11 +97,11 @@ theorem join_slices (rows : List (List α)) (k : Nat) : ∀ (plan : List (List P
 
 /-- **the cuts partition the rows**: reading, region after region, the slices `refineSegment`
     computed gives back every row group, whole and in order -/
-theorem cuts_partition_rows (specs : List ColSpec) (ts : List RG) (plan : List (List Part))
-    (h : refineSegment specs ts = some plan) (rows : List (List α)) (hlen : rows.length = ts.length)
+theorem cuts_partition_rows (strict : Bool) (specs : List ColSpec) (ts : List RG) (plan : List (List Part))
+    (h : refineSegment strict specs ts = some plan) (rows : List (List α)) (hlen : rows.length = ts.length)
     (hrows : ∀ i, i < ts.length → (rows.getD i []).length = numRowsOf ts i) :
     joinSegmentsG ts.length (plan.map (slicesOf rows ts.length)) = rows := by
-  obtain ⟨hw, hnd⟩ := refineSegment_partition specs ts plan h
+  obtain ⟨hw, hnd⟩ := refineSegment_partition strict specs ts plan h
   apply List.ext_getElem?
   intro i
   by_cases hi : i < ts.length
@@ -129,14 +129,14 @@ theorem cuts_partition_rows (specs : List ColSpec) (ts : List RG) (plan : List (
     -- (every row of a region ≤ every row of the later regions) from the sweep of `refineSegment`
     -- over the start/end events and from `PagesOk`; the sweep invariant relating `pendingLeftK`,
     -- `active` and the cursors to the keys of the rows not yet planned is not proved. -/
-theorem cuts_form_good_plan_partial (specs : List ColSpec) (ts : List RG) (plan : List (List Part))
-    (h : refineSegment specs ts = some plan) (rows : List (List α)) (hlen : rows.length = ts.length)
+theorem cuts_form_good_plan_partial (strict : Bool) (specs : List ColSpec) (ts : List RG) (plan : List (List Part))
+    (h : refineSegment strict specs ts = some plan) (rows : List (List α)) (hlen : rows.length = ts.length)
     (hrows : ∀ i, i < ts.length → (rows.getD i []).length = numRowsOf ts i)
     (le : α → α → Prop) (tag : α → Nat) (outs : List (List α))
     (hgood : PlanGoodBy le tag ts.length (plan.map (slicesOf rows ts.length)) outs) :
     IsMergeBy le tag rows outs.flatten := by
   have := planBy_isMerge _ _ hgood
-  rwa [cuts_partition_rows specs ts plan h rows hlen hrows] at this
+  rwa [cuts_partition_rows strict specs ts plan h rows hlen hrows] at this
 
 end
 
